@@ -208,7 +208,16 @@ func (scanner *memSortingScanner[T]) Scan(store *ObjectStore[T], query ast.Query
 	// Longer term, if we're looking for better performance, we could make a version of llrb which takes a comparator
 	// function instead of putting the comparison on the elements, so we don't need to store a context with each row
 	results := &llrb.Tree{}
-	maxResults := scanner.targetOffset + scanner.targetLimit
+	// number of rows worth keeping: the skipped ones plus the page. A negative skip
+	// skips nothing and the sum must not wrap around when there is no limit.
+	offset := scanner.targetOffset
+	if offset < 0 {
+		offset = 0
+	}
+	maxResults := int64(math.MaxInt64)
+	if scanner.targetLimit < math.MaxInt64-offset {
+		maxResults = offset + scanner.targetLimit
+	}
 	for cursor.IsValid() {
 		rowCursor.current = cursor.Current()
 		cursor.Next()
